@@ -193,11 +193,38 @@ def c01d(ctx, tu):
     n = 0
     for fn in tu.find("trompeloeil::match_parameters"):
         p0 = fn.rec["params"][0]["t"] if fn.rec["params"] else ""
-        m = re.match(r"std::integer_sequence<unsigned long(.*)>", p0)
+        m = re.match(r"(?:std|trompeloeil::detail)::integer_sequence<unsigned long(.*)>", p0)
         if not m:
             continue
         n += 1
         idx = [x.strip().rstrip("UL").rstrip("ul") for x in m.group(1).split(",") if x.strip()]
+        # the indices that MUST be asked are those of the parameter tuple, whatever index pack the function was
+        # instantiated with (at C++11 the pack comes from the library's own make_index_sequence)
+        pt = fn.rec["params"][1]["t"] if len(fn.rec["params"]) > 1 else ""
+        if "tuple<" in pt:
+            depth, cur, parts = 0, "", []
+            for ch in pt[pt.index("tuple<") + 5:]:
+                if ch == "<":
+                    depth += 1
+                    if depth == 1:
+                        continue
+                elif ch == ">":
+                    depth -= 1
+                    if depth == 0:
+                        break
+                if ch == "," and depth == 1:
+                    parts.append(cur)
+                    cur = ""
+                else:
+                    cur += ch
+            if cur.strip():
+                parts.append(cur)
+            arity = len(parts)
+            if sorted(set(idx)) != [str(i) for i in range(arity)] or len(idx) != arity:
+                ctx.ob("C01.d", "trompeloeil::match_parameters", False, pattern=fn.pat, unit=tu.name, inst=fn.q,
+                       detail="all parameters must be matched: for %d parameters the function is instantiated over the "
+                       "indices %s" % (arity, idx))
+                continue
         # semantic: for every valuation of "parameter i matches" the result is the conjunction, and when all match
         # every index has been asked (the fold may be an accumulate over a pack expansion, a recursion
         # over the index pack, a helper - the function is interpreted, helpers followed)
@@ -266,8 +293,15 @@ def run(ctx):
     ctx.not_decided = ["argument values enter only through matches(), parametrically"]
     units = []
     n = 0
-    for tu in ctx.units(lambda n: n.startswith("core") or n.startswith("repo_ct") or n.startswith("coro")):
+    def want(n):
+        return n.startswith("core") or n.startswith("repo_ct") or n.startswith("coro") or n == "cpp11"
+    want.with_cpp11 = True     # at C++11 the index packs come from the library's own make_index_sequence
+    for tu in ctx.units(want):
         if not tu.find(A["dispatch"]):
+            continue
+        if tu.name == "cpp11":
+            n += c01d(ctx, tu)
+            units.append({"unit": tu.name, "functions": len(tu.fns)})
             continue
         c01a(ctx, tu)
         c01b(ctx, tu)
